@@ -1183,6 +1183,13 @@ class H2Connection:
         if origin is not None and stream_id is not None:
             raise ValueError("Must not provide both origin and stream_id")
 
+        if self.config.client_side:
+            # On a connection that has not carried a request yet the state
+            # machine cannot tell a client from a server.
+            raise ProtocolError(
+                "Clients cannot advertise alternative services"
+            )
+
         self.state_machine.process_input(
             ConnectionInputs.SEND_ALTERNATIVE_SERVICE
         )
